@@ -1,0 +1,61 @@
+//go:build verif
+
+// Contracts for the deductive verifier in /verif (govc). Only compiled with -tags verif.
+
+package ctlcmd
+
+// ---- C25: non-root callers can only run snapctl's read-only commands ----------------------
+
+// The commands a non-root caller may run. The verifier does not know the elements of the slice a
+// package variable refers to (they live in the heap), so the list is pinned textually (and no store
+// to the variable outside init is allowed) and the gate is specified as membership in it.
+//@ const [C25] nonRootAllowed: []string{"get", "services", "set-health", "is-connected", "system-mode", "model"}
+
+// s is one of the commands listed in nonRootAllowed
+//@ define nonRootCmd(s string) = exists j int :: 0 <= j && j < len(nonRootAllowed) && nonRootAllowed[j] == s
+
+// a help option occurs in args, in any position not preceded by a "--" terminator
+//@ define asksHelp(args []string) = exists i int :: 0 <= i && i < len(args) && (args[i] == "-h" || args[i] == "--help") && (forall k int :: 0 <= k && k < i ==> args[k] != "--")
+
+// the gate: root, or the command name (first argument) is in the list, or help is requested
+//@ define mayRun(uid uint32, args []string) = uid == 0 || (len(args) > 0 && nonRootCmd(args[0])) || asksHelp(args)
+
+//@ func isAllowedToRun
+//@   props C25
+//@   nopanic
+//@   ensures result == mayRun(uid, args)
+//@   loop 0: invariant -1 <= idx0 && idx0 < len(args)
+//@   loop 0: invariant uid != 0
+//@   loop 0: invariant len(args) > 0 && idx0 >= 0 ==> !nonRootCmd(args[0])
+//@   loop 0: invariant forall k int :: 0 <= k && k <= idx0 ==> args[k] != "-h" && args[k] != "--help" && args[k] != "--"
+
+// The go-flags parser (which looks up the command and calls its Execute) is only reached when the
+// gate is open for the caller's uid and the argument vector Run was given, and it is handed that
+// very vector; a closed gate (or an empty vector) yields an error and no output.
+//@ func Run
+//@   props C25
+//@   guard call ParseArgs: old(mayRun(uid, args))
+//@   guard call ParseArgs: arg1 == args
+//@   ensures old(len(args) == 0 || !mayRun(uid, args)) ==> err != nil && stdout == nil && stderr == nil
+
+// the gate is consulted by Run only
+//@ callers [C25] isAllowedToRun: Run
+
+// Reading of the gate for the user: a non-root invocation without any -h/--help that passes the
+// gate names one of the listed commands as its first argument.
+//@ func lemNonRootNoHelp
+//@   lemma
+//@   props C25
+//@   requires uid != 0 && mayRun(uid, args)
+//@   requires forall i int :: 0 <= i && i < len(args) ==> args[i] != "-h" && args[i] != "--help"
+//@   ensures len(args) > 0 && nonRootCmd(args[0])
+
+func lemNonRootNoHelp(uid uint32, args []string) {}
+
+// Root passes the gate whatever the argument vector.
+//@ func lemRootMayRun
+//@   lemma
+//@   props C25
+//@   ensures mayRun(0, args)
+
+func lemRootMayRun(args []string) {}
